@@ -292,7 +292,10 @@ func ruleSweeper(c *Check, rTable, rPrivate, rEffect, rCursor string) {
 				preset = true // assigned something other than the zero value outside the slice body
 			}
 		}
-		if loopDepth(al.Block()) != 1 || preset {
+		// the cursor lives across the slices of one DBI (depth exactly 1); the limit flag is
+		// rewritten by every slice before it is read (checked below), so it may also be
+		// declared per slice
+		if d := loopDepth(al.Block()); d < 1 || d != 1 && nm != roles.limit || preset {
 			okCur = false
 			c.Bad(rCursor, fnSweep+"/cursor-scope:"+nm, fmt.Sprintf("the slice resume state %q is not a fresh variable per DBI (loop depth %d, or assigned outside the slice body): a cursor left over from one DBI would make the next DBI's scan start in the middle", nm, loopDepth(al.Block())), c.P.InstrPos(al), nil)
 		}
@@ -684,5 +687,5 @@ func ruleEveryDBISwept(c *Check, rule string) {
 	if bad == 0 {
 		c.Ok(rule, fnSweep+"/every-dbi-swept", fmt.Sprintf("%d path classes complete an iteration of the DBI loop; the %d that start no sweep transaction have schemaTracksChanges == false and a name without the private prefix", nIter, nSkip), c.P.Pos(fn.Pos()))
 	}
-	c.Floor(rule, nIter, 2, "completed iterations of the sweeper's DBI loop")
+	c.Floor(rule, nIter, 1, "completed iterations of the sweeper's DBI loop")
 }
